@@ -66,6 +66,7 @@ SEQS = {
     "toggle-rule-restart": ["P0", "Tr", "P1", "Ur", "R", "P2"],
     "batch-then-scalar": ["B0", "P1", "B2"],
     "copy-of-restarted": ["P0", "R", "C", "cP1", "cCHECK_GRAPH"],
+    "weight-then-copy": ["W", "P0", "C", "cP0", "cP1", "P1"],          # a copy carries the rule weight as it is (all its digits)
     "copy-twice": ["P0", "C", "cE", "cP1", "C", "cCHECK_GRAPH", "cP0", "P1"],          # the second copy is again a copy of the ORIGINAL as it is now
     "copy-again-after-edit": ["C", "cP0", "E", "C", "cP1", "P1"],
     "toggle-variable": ["Tv", "P0", "Uv", "P1"],
@@ -133,9 +134,12 @@ def graph_disjoint(fl, e, c):
 
 
 def ob_sequence(ename, spec, sname, seq, label):
+    # (S.format_decimals = 17 below: no parameter is assumed to lie on a decimals grid here, so any text made of a number with fewer
+    #  decimals stands for the ROUNDED number - a copy that goes through a rule's text loses digits of the weight)
     def run(ob):
         fl = install()
         set_mode("R")
+        S.format_decimals = 17
         build = regeng.builder(fl)
         names_in = [iv["name"] for iv in spec["inputs"]]
         nsteps = 1 + max([int(op.lstrip("c")[1:]) for op in seq if op.lstrip("c")[0] in "PB" and op.lstrip("c")[1:].isdigit()] + [0])
